@@ -15,7 +15,7 @@ from facts import (callee_is, callee, peel, src, strip_generics, children, is_lo
 ERASE = ('Clone::clone', 'IsNone::unwrap', 'Option::unwrap', 'Cast::cast', 'IsNone::to_opt',
          'Option::as_ref', 'IsNone::as_opt', 'Number::f64', 'Into::into', 'From::from',
          'Option::cloned', 'ToOwned::to_owned', 'Option::as_mut', 'Borrow::borrow',
-         'Deref::deref', 'AsRef::as_ref')
+         'Deref::deref', 'AsRef::as_ref', 'Number::to')
 NULLS = ('f64::NAN', 'f32::NAN', '::None', 'IsNone::none')
 
 
@@ -246,6 +246,8 @@ def canon(e, env):
         if d.endswith(NULLS):
             return 'NULL'
         segs = d.split('::')
+        if e.get('res') in ('AssocFn', 'Fn') and '::'.join(segs[-2:]) in ERASE:
+            return '|a0| a0'                       # `.map(Cast::cast)` is `.map(|v| v.cast())`
         return '::'.join(segs[-2:])
     if k == 'Lit':
         return e['v']
@@ -281,6 +283,8 @@ def canon(e, env):
             return 'Some(%s)' % canon(e['ch'][1], env)
         if callee_is(e, 'IsNone::none'):
             return 'NULL'
+        if callee_is(e, *ERASE) and len(e['ch']) == 2:
+            return canon(e['ch'][1], env)          # `Cast::<U>::cast(v)` is `v.cast()`
         name = 'Self' if e.get('callee_res') == 'SelfCtor' else canon(c, env)
         a_ = [canon(x, env) for x in e['ch'][1:]]
         if not a_ and callee_is(e, 'TimeUnitTrait::unit') and e.get('targs'):
@@ -324,6 +328,13 @@ def canon(e, env):
                     return p_ if op == '==' else _neg(p_)
         if op in ('>', '>='):
             a, b, op = b, a, {'>': '<', '>=': '<='}[op]
+        # unsigned operands: `0 < x`, `1 <= x` are `x != 0`; `x < 1`, `x <= 0` are `x == 0`
+        uns = ('usize', 'u8', 'u16', 'u32', 'u64', 'u128')
+        if op in ('<', '<=') and (peel(e['ch'][0]).get('ty') in uns or peel(e['ch'][1]).get('ty') in uns):
+            if (op, a) in (('<', '0'), ('<=', '1')):
+                a, b, op = '0', b, '!='
+            elif (op, b) in (('<', '1'), ('<=', '0')):
+                a, b, op = '0', a, '=='
         if op in ('==', '!=', '+', '*') and b < a:
             a, b = b, a
         return '(%s %s %s)' % (a, op, b)
@@ -378,6 +389,29 @@ def canon(e, env):
             return cc_[0] if len(cc_) == 1 else '(%s)' % ' && '.join(sorted(cc_))
         en = dict(env)
         cs = conj(c[0], en)
+        if len(c) > 2 and e.get('ty') == 'bool' and len(cs) == 1:
+            # a boolean-valued `if A { B } else { C }` with a literal branch is a formula:
+            # C true: !A || B ; B true: A || C ; C false: A && B ; B false: !A && C
+            # (a disjunction is spelled as the negated conjunction of the negations)
+            def one(x, en_):
+                x = peel(x)
+                while x.get('k') == 'Block' and not x.get('stmts') and 'expr' in x:
+                    x = peel(x['expr'])
+                return canon(x, en_) if x.get('k') != 'Block' else None
+            B, C = one(c[1], en), one(c[2], env)
+            A = cs[0]
+
+            def AND(x, y):
+                return '(%s)' % ' && '.join(sorted({x, y}))
+            if B is not None and C is not None:
+                if C == 'true':
+                    return '!%s' % AND(A, _neg(B))
+                if B == 'true':
+                    return '!%s' % AND(_neg(A), _neg(C))
+                if C == 'false':
+                    return AND(A, B)
+                if B == 'false':
+                    return AND(_neg(A), C)
         if len(c) > 2:
             ncs = conj(c[0], dict(env), False)
             # one spelling for `if c {A} else {B}` and `if !c {B} else {A}`
@@ -1573,6 +1607,15 @@ def table(e, env=None):
             continue        # infeasible path
         leaf, ef = _inline_defs(leaf, tuple(ef), cs, mutkept)
         out.add((cs, leaf, _drop_dead(cs, leaf, tuple(ef))))
+    # a function whose two paths are `c -> true`, `!c -> false` is the predicate c itself
+    # (`matches!(x, P)`, `if c { true } else { false }` in value position)
+    rows = list(out)
+    if len(rows) == 2 and all(not ef and len(cs) == 1 for cs, l, ef in rows) and \
+            {l for cs, l, ef in rows} == {'true', 'false'}:
+        (ct,) = [next(iter(cs)) for cs, l, ef in rows if l == 'true']
+        (cf,) = [next(iter(cs)) for cs, l, ef in rows if l == 'false']
+        if _neg(ct) == cf or _neg(cf) == ct:
+            out = Table([(frozenset(), ct, ())])
     return out
 
 
